@@ -1,2 +1,145 @@
 import DuneVerif.Common.Proto
-def main : IO Unit := DV.runDriver fun _ => "bad-op"
+import DuneVerif.Model.C20
+/-! line-protocol driver for C20: `<kind header> : seg;seg;…` (see harness/c20_py.py for the op language) -/
+open DV DV.C20
+
+namespace C20Drv
+
+def reg? (letter : Char) (count : Nat) (tok : String) : Option Nat :=
+  match tok.toList with
+  | c :: rest =>
+    if c != letter || rest.isEmpty then none else
+    match (String.ofList rest).toNat? with
+    | some k => if k < count then some k else none
+    | none => none
+  | [] => none
+
+def x? := reg? 'x' 4
+def a? := reg? 'a' 3
+def t? := reg? 't' 2
+
+def int? (s : String) : Option Int := s.toInt?
+def list? (s : String) : Option (List Int) := parseIntList? s
+/-- slice bound: `_` is None -/
+def idx? (s : String) : Option (Option Int) :=
+  if s == "_" then some none else (s.toInt?).map some
+
+def slotTy? (s : String) : Option SlotTy :=
+  if s == "d" then some .d else if s == "i" then some .i else
+  match s.toList with
+  | 'F' :: rest => match (String.ofList rest).toNat? with
+    | some n => if n ≥ 1 then some (.f n) else none
+    | none => none
+  | _ => none
+
+/-- the tuple shapes the harness builds -/
+def shapes : List (String × String) :=
+  [("d,F2,d,F3", "val"), ("d,F2,d,F3", "ref"), ("F3,F2", "val"), ("i,d", "val"), ("F2,i,F2", "ref")]
+
+def header? (h : String) : Option Kind :=
+  match tokens h with
+  | ["fv", n] => match n.toNat? with
+    | some n => if fvSizes.contains n then some (.fv n) else none
+    | none => none
+  | ["dyn", n] => match n.toInt? with
+    | some _ => some .dyn
+    | none => none
+  | ["tup", sh, r] =>
+    if shapes.contains (sh, r) then
+      match (sh.splitOn ",").mapM slotTy? with
+      | some tys => some (.tup tys (r == "ref"))
+      | none => none
+    else none
+  | _ => none
+
+def how? (s : String) : Option CtorHow :=
+  match s with
+  | "list" => some .list | "tuple" => some .tuple | "args" => some .args | "np" => some .np
+  | "nps2" | "nps3" | "npsm1" | "npsm2" => some .nps
+  | "buf" => some .buf | "fac" => some .fac
+  | _ => none
+
+def seg? (sg : String) : Option Op :=
+  match sg.splitOn " " with
+  | ["new", x, "zero"] => do let x ← x? x; pure (.new x .zero [])
+  | ["new", x, how, L] => do
+      let x ← x? x; let h ← how? how; let L ← list? L
+      pure (.new x h L)
+  | ["copy", x, y] => do pure (.copy (← x? x) (← x? y))
+  | ["mcopy", x, y] => do pure (.mcopy (← x? x) (← x? y))
+  | ["alias", x, y] => do pure (.alias (← x? x) (← x? y))
+  | ["add", x, y, z] => do pure (.binvv false (← x? x) (← x? y) (← x? z))
+  | ["sub", x, y, z] => do pure (.binvv true (← x? x) (← x? y) (← x? z))
+  | ["addl", x, y, L] => do pure (.binvl false false (← x? x) (← x? y) (← list? L))
+  | ["subl", x, y, L] => do pure (.binvl true false (← x? x) (← x? y) (← list? L))
+  | ["raddl", x, L, y] => do pure (.binvl false true (← x? x) (← x? y) (← list? L))
+  | ["rsubl", x, L, y] => do pure (.binvl true true (← x? x) (← x? y) (← list? L))
+  | ["mul", x, y, k] => do pure (.scal .mul (← x? x) (← x? y) (← int? k))
+  | ["rmul", x, k, y] => do pure (.scal .mul (← x? x) (← x? y) (← int? k))
+  | ["div", x, y, k] => do pure (.scal .div (← x? x) (← x? y) (← int? k))
+  | ["neg", x, y] => do pure (.neg (← x? x) (← x? y))
+  | ["addi", x, y, k] => do pure (.intscal false false (← x? x) (← x? y) (← int? k))
+  | ["subi", x, y, k] => do pure (.intscal true false (← x? x) (← x? y) (← int? k))
+  | ["raddi", x, k, y] => do pure (.intscal false true (← x? x) (← x? y) (← int? k))
+  | ["rsubi", x, k, y] => do pure (.intscal true true (← x? x) (← x? y) (← int? k))
+  | ["iadd", x, y] => do pure (.inplaceV false (← x? x) (← x? y))
+  | ["isub", x, y] => do pure (.inplaceV true (← x? x) (← x? y))
+  | ["iaddl", x, L] => do pure (.inplaceL false (← x? x) (← list? L))
+  | ["isubl", x, L] => do pure (.inplaceL true (← x? x) (← list? L))
+  | ["iadds", x, k] => do pure (.inplaceS .add (← x? x) (← int? k))
+  | ["isubs", x, k] => do pure (.inplaceS .sub (← x? x) (← int? k))
+  | ["imuls", x, k] => do pure (.inplaceS .mul (← x? x) (← int? k))
+  | ["idivs", x, k] => do pure (.inplaceS .div (← x? x) (← int? k))
+  | ["assign", x, y] => do pure (.assign (← x? x) (← x? y))
+  | ["set", x, i, k] => do pure (.set (← x? x) (← int? i) (← int? k))
+  | ["get", x, i] => do pure (.get (← x? x) (← int? i))
+  | ["len", x] => do pure (.len (← x? x))
+  | ["iter", x] => do pure (.iter (← x? x))
+  | ["str", x] => do pure (.str (← x? x))
+  | ["slice", x, i, j, s] => do pure (.slice (← x? x) (← idx? i) (← idx? j) (← idx? s))
+  | ["eq", x, y] => do pure (.cmpv false (← x? x) (← x? y))
+  | ["ne", x, y] => do pure (.cmpv true (← x? x) (← x? y))
+  | ["eql", x, L] => do pure (.cmpl false (← x? x) (← list? L))
+  | ["nel", x, L] => do pure (.cmpl true (← x? x) (← list? L))
+  | ["norms", x] => do pure (.norms (← x? x))
+  | ["dot", x, y] => do pure (.dot (← x? x) (← x? y))
+  | ["dotl", x, L] => do pure (.dotl (← x? x) (← list? L))
+  | ["float", x] => do pure (.float (← x? x))
+  | ["view", a, x] => do pure (.view (← a? a) (← x? x))
+  | ["npcopy", a, x] => do pure (.npcopy (← a? a) (← x? x))
+  | ["sl", a, x, i, j, s] => do pure (.sl (← a? a) (← x? x) (← idx? i) (← idx? j) (← idx? s))
+  | ["aget", a, i] => do pure (.aget (← a? a) (← int? i))
+  | ["aset", a, i, k] => do pure (.aset (← a? a) (← int? i) (← int? k))
+  | ["alist", a] => do pure (.alist (← a? a))
+  | ["nscale", a, k] => do pure (.nscale (← a? a) (← int? k))
+  | ["nset", a, i, k] => do pure (.nset (← a? a) (← int? i) (← int? k))
+  | ["nget", a, i] => do pure (.nget (← a? a) (← int? i))
+  | ["nnorms", a] => do pure (.nnorms (← a? a))
+  | ["naxpy", a, k, b] => do pure (.naxpy (← a? a) (← int? k) (← a? b))
+  | ["nrun", a] => do pure (.nrun (← a? a))
+  | ["tnew", t, V] => do pure (.tnew (← t? t) (← list? V))
+  | ["tnewa", t, V] => do pure (.tnew (← t? t) (← list? V))
+  | ["tlen", t] => do pure (.tlen (← t? t))
+  | ["tget", t, i] => do pure (.tget (← t? t) (← int? i))
+  | ["tlist", t] => do pure (.tlist (← t? t))
+  | ["tsetd", t, i, k] => do pure (.tsetd (← t? t) (← int? i) (← int? k))
+  | ["tseti", t, i, k] => do pure (.tseti (← t? t) (← int? i) (← int? k))
+  | ["tsetf", t, i, L] => do pure (.tsetf (← t? t) (← int? i) (← list? L))
+  | ["tsetel", t, i, j, k] => do pure (.elem false (← t? t) (← int? i) (← int? j) (← int? k))
+  | ["srcset", t, i, j, k] => do pure (.elem true (← t? t) (← int? i) (← int? j) (← int? k))
+  | ["tcopy", t, u] => do pure (.tcopy (← t? t) (← t? u))
+  | ["tassign", t, u] => do pure (.tassign (← t? t) (← t? u))
+  | _ => none
+
+def handle (line : String) : String :=
+  match line.splitOn " : " with
+  | h :: r :: rest =>
+    let body := " : ".intercalate (r :: rest)
+    match header? h, (body.splitOn ";").mapM seg? with
+    | some kd, some ops => answer kd ops
+    | _, _ => "bad-op"
+  | _ => "bad-op"
+
+end C20Drv
+
+def main : IO Unit := DV.runDriver C20Drv.handle
